@@ -365,6 +365,20 @@ def operators():
         ops[f"{key}.empty"] = empty
         ops[f"{key}.duplicate"] = dup
 
+    @op("processes.empty_consistent")
+    def _(doc, rng):
+        # the empty list is the only rule broken: nothing refers to a process
+        doc["processes"] = []
+        doc["privilege_escalation"] = {}
+        for h in doc["host_configurations"].values():
+            h["processes"] = []
+        return True
+
+    @op("services.duplicate_only")
+    def _(doc, rng):
+        doc["services"] = list(doc["services"]) + [doc["services"][-1]]
+        return True
+
     # 5. sensitive hosts ---------------------------------------------------
     @op("sensitive.empty")
     def _(doc, rng):
